@@ -80,7 +80,8 @@ def apply_rewrites(item, rules, log, extra=None):
     """returns rewritten text; number of lines is preserved by every rule"""
     t = item.text
     if "R-vis" in rules:
-        t = _sub_logged("R-vis", r"pub\s*\(\s*(crate|super|in [^)]*)\s*\)", "pub", t, log, item)
+        # all extracted items live in one module, so visibility has no run-time meaning; it is dropped
+        t = _sub_logged("R-vis", r"\bpub\b(\s*\(\s*(crate|super|self|in [^)]*)\s*\))?[ \t]*", "", t, log, item)
         t = _sub_logged("R-vis", r"#\[(derive|inline|must_use|non_exhaustive|allow|repr|serde)\b[^\]]*\]", _blank_keep_lines, t, log, item)
     if "R-doc" in rules:
         t = _sub_logged("R-doc", r"(?m)^[ \t]*///.*$", "", t, log, item)
@@ -91,6 +92,9 @@ def apply_rewrites(item, rules, log, extra=None):
     if "R-split" in rules:
         # `for P in E.split(C) {`  ->  `for P in vx_split(E, C) {`   (eager; see DESIGN 3.2)
         t = _sub_logged("R-split", r"\bin\s+([A-Za-z_][\w]*)\.split\(([^()]*)\)", r"in vx_split(\1, \2)", t, log, item)
+    if "R-chars" in rules:
+        # `for c in E.chars() {`  ->  `for c in vx_chars(E) {`  (eager Vec<char>; a for loop consumes the iterator completely, in order)
+        t = _sub_logged("R-chars", r"\bin\s+([A-Za-z_][\w]*)\.chars\(\)", r"in vx_chars(\1)", t, log, item)
     if "R-join" in rules:
         t = _sub_logged("R-join", r"\b([A-Za-z_][\w]*)\.join\(([^()]*)\)", r"vx_join(&\1, \2)", t, log, item)
     if "R-strop" in rules:
@@ -200,6 +204,21 @@ def weave_fn(item_text, fnpath, sections, origin_file, origin_line):
             ins.append(Insertion(toks[body_open].start, "\n" + s.body + "\n", (s.file, s.line)))
         elif s.kind == "attr":
             ins.append(Insertion(0, s.body + "\n", (s.file, s.line)))
+        elif s.kind == "loopend":
+            # proof hint placed as the last statement of the k-th loop's body
+            if loops is None:
+                loops = _loops(toks, code, body_open, body_close)
+            sel = s.args["_pos"][0]
+            m = re.match(r"(while|loop|for)#(\d+)$", sel)
+            same = [l for l in loops if l[0] == m.group(1)]
+            k = int(m.group(2))
+            if k >= len(same):
+                if s.args.get("opt"):
+                    continue
+                raise LostAnchor("%s: %s does not exist" % (fnpath, sel))
+            kind, kw, ob = same[k]
+            cb = rl.match_close(toks, ob)
+            ins.append(Insertion(toks[cb].start, "\n" + s.body + "\n", (s.file, s.line)))
         elif s.kind == "loop":
             if loops is None:
                 loops = _loops(toks, code, body_open, body_close)
@@ -209,6 +228,8 @@ def weave_fn(item_text, fnpath, sections, origin_file, origin_line):
                 raise ValueError("%s:%d: bad loop selector %r" % (s.file, s.line, sel))
             same = [l for l in loops if l[0] == m.group(1)]
             k = int(m.group(2))
+            if k >= len(same) and s.args.get("opt"):
+                continue
             if k >= len(same):
                 raise LostAnchor("%s: %s does not exist (function has %d `%s` loops)" % (fnpath, sel, len(same), m.group(1)))
             kind, kw, ob = same[k]
@@ -240,6 +261,31 @@ def weave_fn(item_text, fnpath, sections, origin_file, origin_line):
                 raise LostAnchor("%s: anchor pattern %r #%d not found" % (fnpath, pat, k))
             off = found + len(pat) if s.kind == "after" else found
             ins.append(Insertion(off, "\n" + s.body + "\n", (s.file, s.line)))
+        elif s.kind == "closure":
+            # the pattern is the complete text of a closure `|PARAMS| BODY`; the section body (return binder and
+            # requires/ensures) is woven between the parameter list and the body, which gets braces if it has none
+            pat = s.args.get("pattern")
+            k = int(s.args["_pos"][0]) if s.args["_pos"] else 0
+            lo, hi = toks[body_open].start, toks[body_close].end
+            pos = lo
+            found = -1
+            for _ in range(k + 1):
+                found = item_text.find(pat, pos, hi)
+                if found < 0:
+                    break
+                pos = found + 1
+            if found < 0:
+                if s.args.get("opt"):
+                    continue
+                raise LostAnchor("%s: closure %r #%d not found" % (fnpath, pat, k))
+            m = re.match(r"(move\s+)?\|[^|]*\|", pat)
+            if not m:
+                raise ValueError("%s:%d: closure pattern must start with |params|" % (s.file, s.line))
+            body_txt = pat[m.end():].strip()
+            ins.append(Insertion(found + m.end(), " " + " ".join(s.body.split()) + " ", (s.file, s.line)))
+            if not body_txt.startswith("{"):
+                ins.append(Insertion(found + len(pat) - len(pat[m.end():].lstrip()), "{ ", (s.file, s.line)))
+                ins.append(Insertion(found + len(pat), " }", (s.file, s.line)))
         else:
             raise ValueError("%s:%d: unknown section kind %r" % (s.file, s.line, s.kind))
     # assemble
